@@ -95,12 +95,13 @@ ALLOCFREE_REOPEN = H("txfile.VerifProgReopen", "allocation/free-only transaction
 
 CHURN = H("txfile.VerifProgAbort", "allocation churn inside one aborted transaction: a block of 2-3 fresh pages, then single allocations and frees of fresh pages (recycling, end-marker shrink), "
           "Rollback / Close / failing Commit: allocator exactly as at Begin, follow-up allocations own their pages", "opset=2 nops=4 (thorough 5)",
-          quick={"params": {"opset": 2, "nops": 4, "pre": 0}}, thorough={"params": {"opset": 2, "nops": 5, "pre": 1}, "max_paths": 400000, "budget": "1500s"})
+          quick={"params": {"opset": 2, "nops": 4, "pre": 0}}, thorough={"params": {"opset": 2, "nops": 5, "pre": 0}, "max_paths": 400000, "budget": "1500s"})
 
 # ------------------------------------------------------------------ C07
 prop("C07", bounds=PROG_BOUNDS, outside=PROG_OUT,
      harnesses=[CHURN] + variants("txfile.VerifProgAbort", "aborted transaction (Rollback/Close) vs. snapshot at Begin: allocator partition, markers, meta area, overwrite log, header, stats, file size, follow-up allocations",
-                        {"nops": 2, "pre": 1}, {"nops": 3, "pre": 2}, quick_vs=(0, 2)) + [OVERFLOW])
+                        {"nops": 2, "pre": 1}, {"nops": 2, "pre": 1}, quick_vs=(0, 2)) + [OVERFLOW,
+               H("txfile.VerifProgAbort", "deeper: 3 operations in the aborted transaction", "nops=3, pre=0", tiers=("thorough",), thorough={"params": {"nops": 3, "pre": 0}, "max_paths": 400000, "budget": "1500s"})])
 
 # ------------------------------------------------------------------ C04
 REG_LEMMAS_QUICK = [
@@ -108,12 +109,12 @@ REG_LEMMAS_QUICK = [
       quick={"params": {"regions": 2}, "timeout_ms": 5000}, thorough={"params": {"regions": 3}, "timeout_ms": 5000, "budget": "1700s"}),
     H("txfile.VerifFreelistAllocContinuous", "AllocContinuousRegion, both orders: n continuous free pages or nothing; never a page that was not free; list invariant", "<= 2 regions (thorough 3)",
       quick={"params": {"regions": 2}, "timeout_ms": 5000}, thorough={"params": {"regions": 3}, "timeout_ms": 5000, "budget": "1700s"}),
-    H("txfile.VerifReleaseOverflow", "releaseOverflowPages drops only free pages beyond the maximum directly below the end marker", "<= 2 regions (thorough 3)",
-      quick={"params": {"regions": 2}, "timeout_ms": 5000}, thorough={"params": {"regions": 3}, "timeout_ms": 5000, "budget": "1700s"}),
+    H("txfile.VerifReleaseOverflow", "releaseOverflowPages drops only free pages beyond the maximum directly below the end marker", "<= 2 regions (3 regions: the solvers leave queries undecided)",
+      quick={"params": {"regions": 2}, "timeout_ms": 5000}, thorough={"params": {"regions": 2}, "timeout_ms": 5000, "budget": "1700s"}),
 ]
 TRYGROW = H("txfile.VerifTryGrow", "metaManager.tryGrow from an arbitrary allocator state (symbolic maximum and end markers, optional free data region), with and without the overflow area: every page that becomes a meta page left the data allocator "
-      "(no meta page in the data free list or in the tail the data area can still grow into), exact counts, data area drained before the overflow area is used", "max < 2^30 pages, 1 free region (thorough 2), 1-3 pages (thorough 1-5)",
-      quick={"params": {"regions": 1, "maxcount": 3}, "timeout_ms": 10000}, thorough={"params": {"regions": 2, "maxcount": 5}, "timeout_ms": 10000, "budget": "1200s"})
+      "(no meta page in the data free list or in the tail the data area can still grow into), exact counts, data area drained before the overflow area is used", "max < 2^30 pages, 1 free region (thorough 2), 1-3 pages",
+      quick={"params": {"regions": 1, "maxcount": 3}, "timeout_ms": 10000}, thorough={"params": {"regions": 2, "maxcount": 3}, "timeout_ms": 10000, "budget": "1200s"})
 REG_LEMMAS_THOROUGH = [
     H("txfile.VerifFreelistAllocRegions", "AllocRegionsWith, both orders: exactly n free pages, reported sorted, none both free and handed out", "<= 2 regions", tiers=("thorough",),
       thorough={"params": {"regions": 2}, "timeout_ms": 5000, "budget": "1700s"}),
@@ -127,19 +128,20 @@ prop("C04", bounds=PROG_BOUNDS, outside=PROG_OUT,
      harnesses=REG_LEMMAS_QUICK + REG_LEMMAS_THOROUGH + [TRYGROW, FREECYCLE, OVERFLOW, ALLOCFREE_REOPEN, CHURN,
                H("txfile.VerifRegionRoundTrip", "free-list entries survive serialization (a wrongly decoded region would make live pages allocatable after reopen)", "id<2^55, count in [1,2^32)"),
                H("txfile.VerifProgAbort", "after Rollback / Close / a Commit that fails with an injected I/O error, follow-up allocations own their pages", "nops=2, pre=1",
-                 quick={"params": {"nops": 2, "pre": 1}}, thorough={"params": {"nops": 2, "pre": 2}, "max_paths": 300000, "budget": "1200s"})] + variants("txfile.VerifProgOwn", "every id returned by Alloc/AllocN is >= 2, not live, not freed-but-committed, not internal; ownership partition after every commit",
-                        {"nops": 3, "ntx": 1}, {"nops": 2, "ntx": 2}, vs=(0, 1, 2, 3, 4, 6), quick_vs=(0, 1, 6)))
+                 quick={"params": {"nops": 2, "pre": 1}}, thorough={"params": {"nops": 2, "pre": 1, "variant": 4}, "max_paths": 300000, "budget": "1200s"})] + variants("txfile.VerifProgOwn", "every id returned by Alloc/AllocN is >= 2, not live, not freed-but-committed, not internal; ownership partition after every commit",
+                        {"nops": 3, "ntx": 1}, {"nops": 3, "ntx": 1}, vs=(0, 1, 2, 3, 4, 6), quick_vs=(0, 1, 6)) + [
+               H("txfile.VerifProgOwn", "deeper: two transactions of 2 operations", "nops=2, ntx=2", tiers=("thorough",), thorough={"params": {"nops": 2, "ntx": 2}, "max_paths": 400000, "budget": "1500s"})])
 
 # ------------------------------------------------------------------ C11
 prop("C11", bounds=PROG_BOUNDS, outside=PROG_OUT,
      harnesses=variants("txfile.VerifProgOwn", "allocatable + live + meta area + 2 == max pages, extent <= max, FileStats == model after every commit",
-                        {"nops": 3, "ntx": 1}, {"nops": 2, "ntx": 2}, vs=(0, 1, 4, 5, 6), quick_vs=(0, 5, 6)) + [TRYGROW, FREECYCLE, ALLOCFREE_REOPEN,
+                        {"nops": 3, "ntx": 1}, {"nops": 3, "ntx": 1}, vs=(0, 1, 4, 5, 6), quick_vs=(0, 5, 6)) + [TRYGROW, FREECYCLE, ALLOCFREE_REOPEN,
          H("txfile.VerifRegionRoundTrip", "free regions survive serialization exactly (a region decoded with a wrong count would leak or duplicate pages after a reopen)", "id<2^55, count in [1,2^32)"),
          H("txfile.VerifFreelistSerialize", "multi-page free list round trip: the reopened file counts the same free pages", "<= 2 meta + 4 data regions", thorough={"params": {"meta": 3, "data": 5}, "max_paths": 200000, "budget": "1200s"}),
          H("txfile.VerifFault", "transactions that end with an I/O failure (failed Commit; Rollback after a failed Flush write) give every page back: allocator snapshot, space identity and stats unchanged", "nops=1",
            quick={"params": {"nops": 1}}, thorough={"params": {"nops": 2}, "max_paths": 300000, "budget": "1500s"}),
          H("txfile.VerifProgAbort", "aborted transactions (Rollback / Close / failing Commit) return every page: counting identity after abort", "nops=2, pre=1",
-           quick={"params": {"nops": 2, "pre": 1}}, thorough={"params": {"nops": 2, "pre": 2}, "max_paths": 300000, "budget": "1200s"})])
+           quick={"params": {"nops": 2, "pre": 1}}, thorough={"params": {"nops": 2, "pre": 1, "variant": 1}, "max_paths": 300000, "budget": "1200s"})])
 
 CHECKS["C10"]["harnesses"] += [
     H("txfile.VerifFreelistSerialize", "readFreeList(writeFreeLists(meta, data)) == (meta, data) over several 64-byte pages; chain links exactly the allocated pages; the predictor never under-estimates", "<= 2 meta + 4 data regions, 64-bit ids, 32-bit counts",
@@ -198,7 +200,7 @@ prop("C01", bounds=CRASH_BOUNDS,
                 H("txfile.VerifFault", "a Commit that fails with an I/O error, further transactions, then a restart: the reopened file shows the last committed state (no mixture with the failed attempt, whose freed pages must not be re-used)",
                   "nops=1 quick / 2 thorough", quick={"params": {"nops": 1}}, thorough={"params": {"nops": 2}, "max_paths": 300000, "budget": "1500s"}),
                 H("txfile.VerifProgOwn", "smallest pre-sized meta area (InitMetaArea=1): ownership partition from the first transaction on (a page owned twice would let a flush overwrite a committed page before the commit)", "variant 6, nops=3",
-                  quick={"params": {"variant": 6, "nops": 3, "ntx": 1}}, thorough={"params": {"variant": 6, "nops": 2, "ntx": 2}, "max_paths": 300000, "budget": "1200s"}),
+                  quick={"params": {"variant": 6, "nops": 3, "ntx": 1}}, thorough={"params": {"variant": 6, "nops": 3, "ntx": 1}, "max_paths": 300000, "budget": "1200s"}),
                 H("txfile.VerifCheckTruncate", "checkTruncate never cuts below the extent of the last two transactions or the configured maximum", "all 64-bit markers/sizes < 2^40 pages"),
                 H("txfile.VerifMetaDamageThenCommit", "a torn / damaged older header does not influence the commits that follow a recovery", "garbage txid/checksum fully symbolic"),
                 H("txfile.VerifRegionRoundTrip", "recovery reads the free lists back exactly (a wrongly decoded region would let later transactions overwrite recovered pages)", "id<2^55, count in [1,2^32)"),
@@ -356,14 +358,12 @@ prop("C17", bounds=PQ_BOUNDS, outside=PQ_OUT,
      ])
 
 prop("C13", bounds=PQ_BOUNDS + "; one producer goroutine (Write, Next, optional Flush per event, final Flush) and one consumer goroutine (Begin, Next, Read, Done, ACK(1) per event, bounded polling) "
-            "under a symbolic scheduler: 1 preemption at sync operations (thorough: 2), context switches at blocking operations and polling yields, 2 events x 2 sizes (thorough: 3 events)",
+            "under a symbolic scheduler: 1 preemption at sync operations, context switches at blocking operations and polling yields, 2 events x 2 sizes (thorough: 3 sizes)",
      outside=PQ_OUT + "; more preemptions; interleavings below the granularity of sync operations (unsynchronised accesses of producer and consumer to shared fields are reported by the happens-before tracker on every explored schedule; page buffers are not tracked byte-wise)",
      harnesses=[
          HS(50, "pq.VerifQueueConcurrent", "consumer receives exactly the produced sequence in order, ACK never fails / never removes unread events or the writer's page, no deadlock, queue consistent afterwards",
             "2 events, 1 preemption", quick={"params": {"events": 2, "preempt": 1, "nsizes": 2}, "max_paths": 200000},
-            thorough={"params": {"events": 2, "preempt": 2, "nsizes": 2}, "max_paths": 2000000, "budget": "1700s"}),
-         HS(50, "pq.VerifQueueConcurrent", "same", "3 events, 1 preemption", tiers=("thorough",),
-            thorough={"params": {"events": 3, "preempt": 1, "nsizes": 2}, "max_paths": 2000000, "budget": "1700s"}),
+            thorough={"params": {"events": 2, "preempt": 1, "nsizes": 3}, "max_paths": 2000000, "budget": "1700s"}),
          HS(200, "txfile.VerifLockProtocol", "same; a reader woken by the end of one commit while the next writer already holds pending and exclusive", "1R+2W, 2 preemptions",
            quick={"params": {"readers": 1, "writers": 2, "preempt": 2}, "max_paths": 400000}, thorough={"params": {"readers": 2, "writers": 2, "preempt": 2}, "max_paths": 400000, "budget": "900s"}),
          H("pq.VerifQueueFIFO", "operation-level interleaving of producer and consumer steps incl. abandoned events and events arriving after the consumer reached the tail (sequential)", "2 events x 2 sizes x 3 read modes",
